@@ -1,29 +1,8 @@
--- root of the library: every model, spec, lemma and property module
+-- root of the library: the model (import-free). Property modules (WowSrp.Props.*) are built by name —
+-- helper-lemma files written independently for different properties reuse a few lemma names, so they are
+-- deliberately not imported into one environment.
 import WowSrp.Model.Srp
 import WowSrp.Model.World
 import WowSrp.Model.Pin
 import WowSrp.Model.Integrity
 import WowSrp.Model.MatrixCard
-import WowSrp.Lemmas.Pratt
-import WowSrp.Lemmas.SrpAlgebra
-import WowSrp.Props.C01
-import WowSrp.Props.C02
-import WowSrp.Props.C03
-import WowSrp.Props.C04
-import WowSrp.Props.C05
-import WowSrp.Props.C06
-import WowSrp.Props.C07
-import WowSrp.Props.C08
-import WowSrp.Props.C09
-import WowSrp.Props.C09Vectors
-import WowSrp.Props.C10
-import WowSrp.Props.C11
-import WowSrp.Props.C12
-import WowSrp.Props.C13
-import WowSrp.Props.C14
-import WowSrp.Props.C15
-import WowSrp.Props.C16
-import WowSrp.Props.C17
-import WowSrp.Props.C18
-import WowSrp.Props.C19
-import WowSrp.Props.SourceLayout
